@@ -91,7 +91,13 @@ class Routine(Schedule, CommentableMixin):
         is_eq = super().__eq__(other)
         is_eq = is_eq and self.name == other.name
         is_eq = is_eq and self.is_program == other.is_program
-        is_eq = is_eq and self.return_symbol == other.return_symbol
+        # Symbols do not implement equality: compare the return symbols by
+        # name (as is done for the symbol of a Reference).
+        if self.return_symbol is None or other.return_symbol is None:
+            is_eq = is_eq and self.return_symbol is other.return_symbol
+        else:
+            is_eq = is_eq and (self.return_symbol.name ==
+                               other.return_symbol.name)
 
         return is_eq
 
